@@ -79,9 +79,30 @@ static char *make_jwk(const vh_key_t *k, int priv, int pad, meta_t *m, int extra
 		unsigned mask = (unsigned)vh_below(&rng, 256);
 		int first = 1;
 		tb_adds(&meta, ",\"key_ops\":[");
+		if (vh_below(&rng, 3) == 0) {
+			/* long arrays: the registered operations in any order among 1..70 other names (RFC 7517 4.3 allows them) and repeats */
+			static const int NU[] = { 1, 2, 5, 8, 9, 16, 17, 33, 70 };
+			int ent[96], ne = 0, nu = NU[vh_below(&rng, 9)];
+			for (int i = 0; i < 8; i++) if (mask & (1u << i)) { ent[ne++] = i; m->key_ops |= OPBIT[i]; }
+			for (int i = 0; i < nu; i++) ent[ne++] = 100 + i;
+			if (mask && vh_below(&rng, 3) == 0) { int d = ent[0]; ent[ne++] = d; }	/* a repeated operation */
+			for (int i = ne - 1; i > 0; i--) { int j = (int)vh_below(&rng, (uint64_t)i + 1), x = ent[i]; ent[i] = ent[j]; ent[j] = x; }
+			if (vh_below(&rng, 2)) {	/* all other names first: the registered ones lie beyond the first nu entries */
+				int w = 0, tmp[96];
+				for (int i = 0; i < ne; i++) if (ent[i] >= 100) tmp[w++] = ent[i];
+				for (int i = 0; i < ne; i++) if (ent[i] < 100) tmp[w++] = ent[i];
+				memcpy(ent, tmp, sizeof(int) * (size_t)ne);
+			}
+			for (int i = 0; i < ne; i++) {
+				char nm[48];
+				if (ent[i] < 100) snprintf(nm, sizeof(nm), "\"%s\"", OPS[ent[i]]); else snprintf(nm, sizeof(nm), "\"urn:example:op%d\"", ent[i] - 100);
+				tb_adds(&meta, first ? "" : ","); tb_adds(&meta, nm); first = 0;
+			}
+		} else {
 		for (int i = 0; i < 8; i++) if (mask & (1u << i)) { tb_adds(&meta, first ? "\"" : ",\""); tb_adds(&meta, OPS[i]); tb_adds(&meta, "\""); first = 0; m->key_ops |= OPBIT[i]; }
 		if (vh_below(&rng, 3) == 0) { tb_adds(&meta, first ? "\"customOp\"" : ",\"customOp\""); first = 0; }
 		if (vh_below(&rng, 5) == 0) { tb_adds(&meta, first ? "7" : ",7"); first = 0; }
+		}
 		tb_adds(&meta, "]");
 	}
 	tb_adds(&t, "{\"kty\":");
